@@ -42,12 +42,12 @@ func (c *scriptCase) String() string {
 		c.ID, c.G, c.Acts, c.Classes, c.Share, c.Procs, c.Yield, c.Race)
 }
 
-const scriptNS = "vx10s"
+const scriptNS = "vx10scriptspace"
 
 func genScript(c *scriptCase) {
 	r := rand.New(rand.NewSource(c.Seed))
 	c.files = map[string]string{}
-	// every third class lives in the sub-namespace vx10s\sub (directory sub/, discovered by the
+	// every third class lives in the sub-namespace <ns>\s<k> (directory s<k>/, discovered by the
 	// class path manager on demand) and has no interface
 	for k := 0; k < c.Classes; k++ {
 		if k%3 == 2 {
@@ -103,6 +103,13 @@ func genScript(c *scriptCase) {
 					fmt.Fprintf(&sb, "  $o = new C%d();\n", k)
 				}
 				tok(fmt.Sprintf("new%d", k), fmt.Sprintf("C%d", k), "$o->id()")
+				// the class is registered now: a lookup through another-case spelling of its name
+				// (class names are case-insensitive) finds it
+				full := fmt.Sprintf("%s\\C%d", scriptNS, k)
+				if k%3 == 2 {
+					full = fmt.Sprintf("%s\\s%d\\C%d", scriptNS, k, k)
+				}
+				tok(fmt.Sprintf("cv%d", k), "y", fmt.Sprintf("yn(class_exists(\"%s\", false))", strings.ReplaceAll(caseVariant(full, r.Intn(1<<13)), "\\", "\\\\")))
 			case x == 3:
 				k := r.Intn(c.Classes)
 				sub := ""
@@ -110,6 +117,7 @@ func genScript(c *scriptCase) {
 					sub = fmt.Sprintf("s%d\\\\", k)
 				}
 				tok(fmt.Sprintf("ce%d", k), "", fmt.Sprintf("yn(class_exists(\"%s\\\\%sC%d\", false))", scriptNS, sub, k))
+				tok(fmt.Sprintf("cev%d", k), "", fmt.Sprintf("yn(class_exists(\"%s\\\\%sC%d\", false))", caseVariant(scriptNS, r.Intn(1<<13)), sub, k))
 			case x == 4:
 				k := r.Intn(c.Classes)
 				tok(fmt.Sprintf("ie%d", k), "", fmt.Sprintf("yn(interface_exists(\"%s\\\\I%d\", false))", scriptNS, k))
@@ -282,7 +290,7 @@ func (c *scriptCase) judgeOutput(stdout string) (anoms [][2]string, complete boo
 			default:
 				if val != ex.want {
 					what := map[string]string{
-						"new": "a method of the freshly instantiated autoloaded class returned", "fe": "function_exists of a function of the main script returned", "sl": "the fully qualified call \\strlen(\"abc\") returned",
+						"new": "a method of the freshly instantiated autoloaded class returned", "cv": "class_exists(<other-case spelling of the class this coroutine just instantiated>, false) returned", "fe": "function_exists of a function of the main script returned", "sl": "the fully qualified call \\strlen(\"abc\") returned",
 						"lf": "a function registered by this coroutine's own require_once returned", "lfe": "function_exists of a function registered by this coroutine's own require_once returned",
 						"dd": "defined() after this coroutine's own define() attempt of a shared name returned", "do": "define() of a name only this coroutine uses returned",
 						"dod": "defined() of the constant this coroutine just defined returned", "g": "a global bound with `global` read",
